@@ -112,3 +112,13 @@ Theorem C20_singular_float64_outer_columns_partial : forall a b : vecF,
   is_zero64 (detF (M a b a)) = true /\ inverseF (M a b a) = None.
 Proof. exact det_repeated_outer_float. Qed.
 Print Assumptions C20_singular_float64_outer_columns_partial.
+
+(* third layout: second and third columns coincide - with the two above, every repeated-column matrix *)
+Theorem C20_singular_float64_last_columns_partial : forall a b : vecF,
+  let U := sub64 (mul64 (v1 b) (v2 a)) (mul64 (v1 a) (v2 b)) in
+  BinarySingleNaN.is_finite (v0 a) = true -> BinarySingleNaN.is_finite (v0 b) = true ->
+  BinarySingleNaN.is_finite U = true -> BinarySingleNaN.is_finite (mul64 (v0 a) U) = true ->
+  BinarySingleNaN.is_finite (mul64 (v1 a) (v2 a)) = true ->
+  is_zero64 (detF (M b a a)) = true /\ inverseF (M b a a) = None.
+Proof. exact det_repeated_last_float. Qed.
+Print Assumptions C20_singular_float64_last_columns_partial.
